@@ -13,12 +13,12 @@ checks = {
  "C07": ("order", SWEEP + "; alphabet: competing same-typed named inputs / competing converters in every form x every permutation of the option list; oracle: which input was converted / which converter ran", "6 C07"),
  "C09": ("hist", "exhaustive enumeration of all operation sequences (Call/Redefine on shared Func, converter and option objects) up to depth 3/4 x order exploration; oracle: differential against the same history with the Redefine steps deleted, and empty call log during every Redefine", "6 C09"),
  "C10": ("order", SWEEP + "; oracle: differential between Convert and Call of a harness-built func(T) T under the replayed choice sequence", "6 C10"),
- "C11": ("sched", "sequential part: exhaustive enumeration of all call/Redefine sequences up to depth 3/4 over 8 forms of a shared run-once converter x order exploration, differential against an ordinary function whose body memoizes (reference model of run-once); concurrent part: every thread interleaving within the preemption bound under a hand-written cooperative scheduler over hooked shared-memory accesses/body yields/lock acquires (body count <= 1, outcome equals some serial order), plus a free-running -race pass", "6 C11"),
+ "C11": ("sched", "sequential part: exhaustive enumeration of all call/Redefine sequences up to depth 3/4 over 10 forms of a shared run-once converter x order exploration, differential against an ordinary function whose body memoizes (reference model of run-once); concurrent part: every thread interleaving within the preemption bound under a hand-written cooperative scheduler over hooked shared-memory accesses/body yields/lock acquires (body count <= 1, outcome equals some serial order), plus a free-running -race pass", "6 C11"),
  "C12": ("sched", "stateless DFS over thread schedules with preemption bound (controlled cooperative scheduler over access hooks, body yields and shimmed sync.Mutex acquires of the real library) with vector-clock race detection on hooked locations and a serial-order outcome oracle; plus a separate free-running pass of the same bodies on the plain build under Go's race detector", "6 C12"),
  "C08": ("order", SWEEP + " over Redefine scenarios; oracle: filter/resupply/callability + differential against the original function", "6 C08"),
  "C14": ("api", "exhaustive enumeration of function signatures (positional lists, marker structs with every field-tag variant, pointer forms, error positions, rejected shapes) on the real NewFunc; oracle: value list computed from the signature description", "6 C14"),
  "C15": ("api", "exhaustive enumeration of value lists through NewValueSet/accessors/Signature round trip, and of BuildFunc input/output lists x 3-call histories compared with an ordinary function of the same signature", "6 C15"),
- "C16": ("api", "exhaustive enumeration of option lists (length <=4/5 over a 10-option menu) x default/call splits x parameter casings, and of all permutations of distinct-key lists; oracle: last-occurrence-per-key reference", "6 C16"),
+ "C16": ("api", "exhaustive enumeration of option lists (length <=4/5 over a 10-option menu) x default/call splits x parameter casings, and of all permutations of distinct-key lists; oracle: last-occurrence-per-key reference; plus all 2/3-call histories over lists of reused option values and over option lists sharing a backing array, differential against the same history with fresh options", "6 C16"),
  "C17": ("api", "exhaustive enumeration of result shapes (arity 0-4 over T0/T1/error/*myErr at every position, nil/non-nil final error, failed resolutions) on the real Call/Result accessors", "6 C17"),
  "C18": ("graph", "exhaustive enumeration of all small weighted digraphs x sources x map-iteration orders (all orders for n<=3, deviation-bounded above) on the real Dijkstra/EdgeToPath; oracle: Floyd-Warshall", "6 C18"),
  "C19": ("graph-state", "explicit-state BFS (visited set over canonical graph states) whose every transition runs the real Graph operation and its Copy/Reverse obligations, read back through the public API against an adjacency-matrix model", "6 C19"),
